@@ -76,7 +76,9 @@ def select(harnesses, prop, tier, only):
         if not m:
             continue
         ids = re.findall(r"c\d\d", m.group(1))
-        if pid not in ids:
+        # a property file may also claim harnesses that are named after other properties ("also": [regex, ..]): the same
+        # step decides a clause of this property too (e.g. the receiver's retry step under C12)
+        if pid not in ids and not any(re.search(p, s) for p in cfg.get("also", ())):
             continue
         kind = m.group(2)
         if tier == "quick" and kind != "q":
